@@ -154,12 +154,17 @@ def _replay_chunk(edge_ids):
     loop = asyncio.new_event_loop()
     asyncio.set_event_loop(loop)
     res = []
-    for ei in edge_ids:
+    for item in edge_ids:
+        pre = []
+        if isinstance(item, tuple):     # (self-loop edge, following edge)
+            pre, ei = [g.edges[item[0]]], item[1]
+        else:
+            ei = item
         e = g.edges[ei]
         impl = Impl()
         try:
             hist = []
-            for pe_ in g.path_to(e["_s"]):
+            for pe_ in g.path_to(e["_s"]) + pre:
                 impl.step(pe_["act"])
                 hist.append(pe_["act"])
             got = impl.step(e["act"])
@@ -250,7 +255,7 @@ def _b1(chk: Check, consts, label):
     chk.cov["tlc_runs"][-1]["invariants"] = INVS
     g = Graph(recs)
     _G = g
-    ids = g.reachable_edges()
+    ids = g.reachable_edges() + g.selfloop_pairs()
     results = common.parallel_map(_replay_chunk, common.chunked(ids, common.NCPU * 8))
     chk.count(len(ids))
     chk.cov["traces_validated_against_impl"] += len(ids)
